@@ -41,6 +41,9 @@ pub enum Letters {
     /// the order-relevant part of Split (sorts, take, inner/left join, filter, group-aggregate, projection):
     /// small enough for depth 4
     OrderSplit,
+    /// chains of takes under changing orders: a column sorted both ways, a second column, two takes, a projection,
+    /// a grouped aggregate (which makes the flattener drop sorts) — small enough for depth 5
+    TakeChain,
 }
 
 #[derive(Clone, Debug)]
@@ -254,6 +257,29 @@ pub fn menu(st: &GenState, prog: &Program, cfg: &GenCfg) -> Vec<Step> {
     }
     if cfg.letters == Letters::OrderSplit {
         return menu_order_split(st, cfg);
+    }
+    if cfg.letters == Letters::TakeChain {
+        let f = &st.frame;
+        let r = f.referencable();
+        let mut m = vec![];
+        let (Some(&first), Some(&last)) = (r.first(), r.last()) else { return m };
+        m.push(Step::Sort(vec![(false, E::Col(first))]));
+        m.push(Step::Sort(vec![(true, E::Col(first))]));
+        if last != first {
+            m.push(Step::Sort(vec![(true, E::Col(last))]));
+            m.push(Step::Select(vec![col_item(first), col_item(last)]));
+        }
+        if st.ordered {
+            m.push(Step::Take(Some(1), Some(2)));
+            m.push(Step::Take(Some(2), Some(3)));
+        }
+        if last != first && !f.cols.iter().any(|c| matches!(c.name.as_deref(), Some("s"))) {
+            let (_, map) = group_inner_frame(f, &[first]);
+            if let Some(pos) = map.iter().position(|&i| i == last) {
+                m.push(Step::Group { keys: vec![first], inner: vec![Step::Aggregate(vec![("s".into(), Agg::Sum, Some(pos))])] });
+            }
+        }
+        return m;
     }
     let f = &st.frame;
     let r: Vec<usize> = f.referencable();
